@@ -3,6 +3,8 @@ import Bandit.Proofs.Nosec
 import Bandit.Format
 import Bandit.Proofs.Renum
 import Bandit.Proofs.RelLoc
+import Bandit.Proofs.PosInv
+import Bandit.Proofs.TrojanShift
 /-!
 # C10 — Reported locations and excerpts point at the flagged code
 -/
@@ -379,9 +381,8 @@ theorem nosecMoved_exists (ρ : Nat → Nat) (hρ : StrictMonoNat ρ) (nm : Nose
 
 /-- the checks of the core plugin families and the blacklist are covered by `equivariant`
 (every check of `miscChecks` and `shellChecks` and the blacklist wrapper: position-blind, locating
-relative to the node).  PARTIAL instance: the crypto / injection families are added by
-`Bandit.Proofs.RelLoc` as their `NoAbsF` lemmas are proved; B608 and B703 compare positions and need
-`PosInvariant` (not yet proved) — the general theorem above does not depend on this instance. -/
+relative to the node).  Partial instance, kept for reference: the full test set is `all_checks_covered`
+below. -/
 theorem core_checks_covered_partial (pc : PluginCfg) (fn : Str) (cfg : Plugins.ShellCfg) (t : BlTables) :
     ∀ c ∈ Plugins.miscChecks pc fn ++ Plugins.shellChecks cfg ++ (blacklistCheck t).toList, CheckCovered c := by
   intro c hc
@@ -396,6 +397,62 @@ theorem core_checks_covered_partial (pc : PluginCfg) (fn : Str) (cfg : Plugins.S
       simp only [Option.toList, List.mem_singleton] at h
       subst h
       exact Or.inl (blacklistCheck_ok hb)
+
+/-- every modelled plugin check is covered: all AST checks are `CheckOK` — position-blind and locating
+relative to the node, except B608 (spans as node identity) and B703 (order of line numbers), which are
+shown invariant under every strictly monotone renumbering (`Bandit.Proofs.PosInv`) — and B613 is the one
+file-level check -/
+theorem pluginChecks_covered (pc : PluginCfg) (fn : Str) : ∀ c ∈ pluginChecks pc fn, CheckCovered c := by
+  intro c hc
+  simp only [pluginChecks, List.mem_append] at hc
+  rcases hc with (((h | h) | h) | h) | h
+  · exact Or.inl (miscChecks_ok pc fn c h)
+  · exact Or.inl (shellChecks_ok _ c h)
+  · exact Or.inl (cryptoChecks_ok _ pc c h)
+  · simp only [Plugins.trojanChecks, List.mem_singleton] at h
+    subst h
+    exact Or.inr rfl
+  · exact Or.inl (injectChecks_ok _ pc c h)
+
+/-- **The real test set meets the hypothesis of `equivariant`**, for every profile filter `keep`, every
+per-plugin configuration and every blacklist table: the filtered plugin checks and the blacklist wrapper
+over the filtered tables -/
+theorem all_checks_covered (pc : PluginCfg) (fn : Str) (t : BlTables) (keep : Str → Bool) :
+    ∀ c ∈ testSet pc fn t keep, CheckCovered c := by
+  intro c hc
+  simp only [testSet, List.mem_append] at hc
+  rcases hc with h | h
+  · exact pluginChecks_covered pc fn c (List.mem_filter.mp h).1
+  · cases hb : blacklistCheck (t.restrict keep) with
+    | none => rw [hb] at h; cases h
+    | some bc =>
+      rw [hb] at h
+      simp only [Option.toList, List.mem_singleton] at h
+      subst h
+      exact Or.inl (blacklistCheck_ok hb)
+
+/-- **Equivariance for bandit's own checks** — `equivariant` with its check hypothesis discharged: for
+every per-plugin configuration, every blacklist table and every profile filter, the whole test set
+(all 41 plugin checks incl. B608/B703, and the blacklist wrapper) yields, on the renumbered tree, the
+events of the original with every location moved along `ρ`. -/
+theorem equivariant_bandit (ρ : Nat → Nat) (hρ : StrictMonoNat ρ) (pc : PluginCfg) (fn : Str) (t : BlTables) (keep : Str → Bool)
+    (root : Node) (hwf : TreeWF root) (hfb : FallbackOK ρ (testSet pc fn t keep) root)
+    (nm nm' : NosecMap) (hm : NosecMoved ρ nm nm') (lines lines' : List Str) :
+    scanVisits (testSet pc fn t keep) nm' lines' {} (visits (root.renum ρ))
+      = (scanVisits (testSet pc fn t keep) nm lines {} (visits root)).map (Event.renum ρ) :=
+  equivariant ρ hρ _ (all_checks_covered pc fn t keep) root hwf hfb nm nm' hm lines lines'
+
+/-- **The file-level finding (B613) under insertion**: inserting lines that contain no bidirectional
+control character between `pre` and `post` leaves a finding inside `pre` where it is and moves a finding
+inside `post` down by exactly the number of inserted lines; column and character are unchanged and no
+finding appears or disappears. -/
+theorem b613_insert_shifts (table : List Char) (pre ins post : List Str)
+    (hclean : ∀ l ∈ ins, Plugins.firstTableChar table l = none) :
+    Plugins.scanBidi table 1 (pre ++ ins ++ post) =
+      match Plugins.scanBidi table 1 pre with
+      | some r => some r
+      | none => (Plugins.scanBidi table (1 + pre.length) post).map (fun r => (r.1 + ins.length, r.2)) :=
+  scanBidi_insert table 1 pre ins post hclean
 
 /-- `x = 1` on line 1 (not in the tree below), a blank line 2, `exec(\n  code)` on lines 3–4 -/
 def exTree : Node :=
